@@ -179,7 +179,11 @@ ASSUMPTIONS = [
 ]
 
 BOUNDED = {
-    'C06': [{'name': 'operator-precedence-round-trip', 'script': 'precdiff.py', 'args': ['--depth', '3'],
+    'C06': [{'name': 'every-code-point-in-every-escape-spelling', 'driver': 'escapes', 'args': ['1'],
+             'functions': ['Lexer::consume_string / consume_unicode / consume_unicode_literal through parse_expression'],
+             'bound': 'exhaustive on its domain: every Unicode scalar value from U+0020 (1 112 000 code points; the quotation mark and the backslash excepted) written as \\UXXXXXX, and as \\uXXXX (basic plane) or as a UTF-16 '
+                      'surrogate pair (supplementary planes), inside a string literal parses to the one-character string (2 224 186 literals; bounded duplicate of the Verus contracts of consume_unicode, decides it when a rewritten body leaves the extractor\'s reach)'},
+            {'name': 'operator-precedence-round-trip', 'script': 'precdiff.py', 'args': ['--depth', '3'],
              'functions': ['feel-parser/src/lalr.rs (tables)', 'Parser::parse (table lookups)', 'Lexer::read_next_token / consume_name for operators, keywords and the type name after `instance of`'],
              'bound': 'every syntax tree of one, two or three nested operators (every ordered pair and triple, every operand position) over or, and, =, <, between, in, +, -, *, /, **, unary minus, instance of, filter, path with bound '
                       'single-word names as leaves (about 5 900 trees, 31 000 parses): fully parenthesised and minimally parenthesised renderings give the same tree, one needed pair of parentheses removed gives a different tree; '
